@@ -327,3 +327,33 @@ def defaults_unaffected_by_earlier_instances(H, cname):
         else:
             ok = got == cs.default
         H.check(f"default_of_second_instance_matches_spec[{cs.name}]", ok, witness={"class": cname, "controller": cs.name, "got": repr(got), "spec": repr(cs.default)})
+
+
+@contract(
+    "lenient_load_keeps_out_of_range_values", ["C09", "C04"], cases=_fixed_range_cases,
+    targets=["rv.modules.module:Module.set_raw", "rv.errors:override_raise_controller_value_errors", "rv.errors:raise_or_warn_controller_value_validation"],
+)
+def lenient_load_keeps_out_of_range_values(H, case):
+    """Lenient (load) mode through the loader's own entry point: Module.set_raw with a stored value
+    that decodes to a value OUTSIDE the fixed range, inside the lenient context the reader uses - the
+    decoded value is accepted and stored (only a warning), every other controller is untouched, and
+    strict mode is in force again afterwards."""
+    import rv.errors
+    from rv.errors import override_raise_controller_value_errors
+
+    cname, name = case
+    cls = K.class_by_name(cname)
+    m = cls()
+    t = cls.controllers[name].value_type
+    v = H.int("v", -(2**30), 2**30)
+    H.assume(H.or_(v < t.min, v > t.max))
+    raw = v - t.min if (t.min < 0 and type(t).__name__ != "NoOffsetRange") else v
+    before = {k: x for k, x in m.controller_values.items() if k != name}
+    K.strict()
+    with override_raise_controller_value_errors(False):
+        exc, _ = H.raises(H.call, m.set_raw, name, raw)
+    H.check("accepted_when_lenient", exc is None)
+    H.check("decoded_value_is_stored", H.eq(m.controller_values[name], v))
+    H.check("others_untouched", H.eq({k: x for k, x in m.controller_values.items() if k != name}, before))
+    H.check("strict_again_afterwards", rv.errors.RAISE_CONTROLLER_VALUE_ERRORS is True)
+    H.cover("reached")
